@@ -48,12 +48,15 @@ OutSpace(m) ==
 
 Generous == fed = inp.have /\ grant >= Big(inp)
 
+\* what next.code() hands to lzma_code() (overridden by MCStarveLazy.cfg to show that StarveLive is not vacuous)
+InnerRet(r) == r.ret
+
 DoCall ==
     /\ phase = "call"
     /\ LET a   == IF fed = inp.have THEN "FINISH" ELSE "RUN"
            ain == fed - totalIn
            r   == Code(inp, cs, ain, grant, a = "FINISH")
-       IN /\ Call(a, ain, grant, FALSE, FALSE, FALSE, r.ret, r.uin, Len(r.out))
+       IN /\ Call(a, ain, grant, FALSE, FALSE, FALSE, InnerRet(r), r.uin, Len(r.out))
           /\ cs' = IF obs'.innerRan THEN r.c ELSE cs
           /\ outAcc' = IF obs'.innerRan THEN outAcc \o r.out ELSE outAcc
           /\ done' = (obs'.ret \notin {"OK", "BUF_ERROR"} \/ (obs'.ret = "BUF_ERROR" /\ Generous))
